@@ -3,8 +3,8 @@
    The theorems are about the selection logic of prod_sun.py over an event oracle
    [sun_ev : key -> UTC day -> option instant] (astral's per-date answers, None = ValueError) and the
    process-wide cache; that astral's instants are the astronomical events is tested, not proved. *)
-From EAS Require Import Base BaseFacts Civil Time Filters Replace Producers SunFacts.
-From EASGen Require Import Generated.
+From EAS Require Import Base BaseFacts Civil Time Filters Replace Producers ProdStrict SunFacts GenRtProd GenRtSun GenProdEq GenSunEq.
+From EASGen Require Import Generated GenProd GenSun.
 
 (* every answer is an event of the oracle rounded up to the full second, strictly after the reference
    instant, accepted by the filter; the cache stays coherent *)
@@ -163,3 +163,193 @@ Theorem C18_following_date_refuted :
     v - round_up_sec e > 6 * DAY.
 Proof. exact sun_following_date_refuted. Qed.
 Print Assumptions C18_following_date_refuted.
+
+
+(* THE TIE (second tie, prod_sun.py): the generated SunProducer._get_next_sun is the model's next_sun_raw - value,
+   SUN_CACHE contents and order, exception - in every world that reads the model's numbers faithfully *)
+Theorem C18_generated_get_next_sun :
+  forall E R W fuel, world_ok W -> forall key dt st,
+    g_sun_get_next_sun E R W fuel (astral_call E key) (fun _ => ckey (w_sun W key)) dt st =
+    lift (next_sun_raw E key st dt).
+Proof. exact gen_get_next_sun_eq. Qed.
+Print Assumptions C18_generated_get_next_sun.
+
+(* every producer class generated, sun producers included (also inside groups and operations) *)
+Theorem C18_generated_get_next_is_model :
+  forall E W, world_ok W -> forall n p, wf_producer p -> (srank p <= n)%nat ->
+    forall dt st, r_get_next (pknot_sun E W n) p dt st = lift (get_next E p st dt).
+Proof. exact gen_get_next_is_model_sun. Qed.
+Print Assumptions C18_generated_get_next_is_model.
+
+Theorem C18_generated_cache_keys :
+  (forall c el d az, g_sun_cache_key c = [VClass c] /\ g_elev_cache_key c el d = [VClass c; VFloat el; VDir d] /\
+                     g_az_cache_key c az = [VClass c; VFloat az]) /\
+  (forall o1 o2, ckey o1 = ckey o2 -> o1 = o2) /\
+  (forall W k1 d1 l1 k2 d2 l2, world_ok W -> key_format W k1 d1 l1 = key_format W k2 d2 l2 -> (k1, d1, l1) = (k2, d2, l2)).
+Proof. split; [exact gen_cache_keys|split; [exact gen_cache_key_injective|exact world_ok_injective]]. Qed.
+Print Assumptions C18_generated_cache_keys.
+
+Theorem C18_generated_world_exists : world_ok world0 /\ world_ok ex_world.
+Proof. split; [exact world0_ok|exact ex_world_ok]. Qed.
+Print Assumptions C18_generated_world_exists.
+
+Theorem C18_generated_next_is_event :
+  forall E W n key f st dt v st', world_ok W -> (S (orank f) <= n)%nat ->
+    cache_coherent E st ->
+    gen_sun E W n key f st dt = Some (st', PRet v) ->
+    dt < v /\ allow_opt (pz E) f v = true /\
+    (exists d e, sun_ev E key d = Some e /\ v = round_up_sec e) /\
+    v mod NS = 0 /\ cache_coherent E st'.
+Proof. exact gen_sun_next_is_event. Qed.
+Print Assumptions C18_generated_next_is_event.
+
+Theorem C18_generated_errors :
+  forall E W n key f st dt x st', world_ok W -> (S (orank f) <= n)%nat ->
+    cache_coherent E st ->
+    gen_sun E W n key f st dt = Some (st', PExc x) ->
+    (x = XErr ELocationNotSet /\ location E = None) \/ x = XErr EValueError \/ x = XErr EInfiniteLoop.
+Proof. exact gen_sun_next_errors. Qed.
+Print Assumptions C18_generated_errors.
+
+Theorem C18_generated_never_stuck :
+  forall E W n key f st dt, world_ok W -> (S (orank f) <= n)%nat -> gen_sun E W n key f st dt <> None.
+Proof. exact gen_sun_never_stuck. Qed.
+Print Assumptions C18_generated_never_stuck.
+
+Theorem C18_generated_rounding :
+  forall v, let r := if negb (py_subsecond v =? 0) then py_floor_second v + 1 * NS else v in
+    v <= r < v + NS /\ r mod NS = 0 /\ (v mod NS = 0 -> r = v).
+Proof. exact gen_sun_rounding. Qed.
+Print Assumptions C18_generated_rounding.
+
+Theorem C18_generated_polar_skip :
+  forall E W key st dt loc, world_ok W ->
+    location E = Some loc -> cache_coherent E st ->
+    (exists j e st', 0 <= j <= 366 /\ sun_ev E key (utc_day dt + j) = Some e /\
+                 (forall i, 0 <= i < j -> sun_ev E key (utc_day dt + i) = None) /\
+                 gen_sun_raw E W key st dt = Some (st', PRet (round_up_sec e)))
+    \/ ((forall i, 0 <= i <= 366 -> sun_ev E key (utc_day dt + i) = None) /\
+        exists st', gen_sun_raw E W key st dt = Some (st', PExc (XErr EValueError))).
+Proof. exact gen_sun_polar_skip. Qed.
+Print Assumptions C18_generated_polar_skip.
+
+Theorem C18_generated_location_not_set :
+  forall E W key st dt, world_ok W ->
+    location E = None -> gen_sun_raw E W key st dt = Some (st, PExc (XErr ELocationNotSet)).
+Proof. exact gen_sun_location_not_set. Qed.
+Print Assumptions C18_generated_location_not_set.
+
+Theorem C18_generated_query_independent :
+  forall E W n key f st1 st2 dt, world_ok W -> (S (orank f) <= n)%nat ->
+    cache_coherent E st1 -> cache_coherent E st2 ->
+    pm_value (gen_sun E W n key f st1 dt) = pm_value (gen_sun E W n key f st2 dt).
+Proof. exact gen_sun_query_independent. Qed.
+Print Assumptions C18_generated_query_independent.
+
+Theorem C18_generated_cache_coherent_preserved :
+  forall E W n key f st dt, world_ok W -> (S (orank f) <= n)%nat ->
+    cache_coherent E st ->
+    (forall st' r, gen_sun_raw E W key st dt = Some (st', r) -> cache_coherent E st') /\
+    (forall st' r, gen_sun E W n key f st dt = Some (st', r) -> cache_coherent E st').
+Proof. exact gen_sun_cache_coherent_preserved. Qed.
+Print Assumptions C18_generated_cache_coherent_preserved.
+
+Theorem C18_generated_cache_bounded :
+  forall E W key st dt st' r, world_ok W ->
+    (length (scache st) <= 64)%nat ->
+    gen_sun_raw E W key st dt = Some (st', r) -> (length (scache st') <= 64)%nat.
+Proof. exact gen_sun_cache_bounded. Qed.
+Print Assumptions C18_generated_cache_bounded.
+
+Theorem C18_generated_chain_regular :
+  forall E W n key evf lo hi st dt, world_ok W -> (1 <= n)%nat ->
+    utc_regular (sun_ev E key) evf lo hi -> location E <> None -> cache_coherent E st ->
+    lo <= utc_day dt -> utc_day dt + 1 <= hi ->
+    exists st', cache_coherent E st' /\
+      gen_sun E W n key None st dt =
+        Some (st', PRet (if dt <? round_up_sec (evf (utc_day dt)) then round_up_sec (evf (utc_day dt))
+                         else round_up_sec (evf (utc_day dt + 1)))).
+Proof. exact gen_sun_chain_regular. Qed.
+Print Assumptions C18_generated_chain_regular.
+
+Theorem C18_generated_chain_visits_all :
+  forall E W n key evf lo hi, world_ok W -> (1 <= n)%nat ->
+    utc_regular (sun_ev E key) evf lo hi -> location E <> None ->
+    forall k st dt, cache_coherent E st -> lo <= utc_day dt -> utc_day dt + Z.of_nat k <= hi ->
+      gchain E W n key None st dt k =
+        map (fun j => Ok (round_up_sec (evf ((if dt <? round_up_sec (evf (utc_day dt)) then utc_day dt
+                                             else utc_day dt + 1) + Z.of_nat j))))
+            (seq 0 k).
+Proof. exact gen_sun_chain_visits_all. Qed.
+Print Assumptions C18_generated_chain_visits_all.
+
+Theorem C18_generated_chain_regular_shifted :
+  forall E W n key evf lo hi, world_ok W -> (1 <= n)%nat ->
+    utc_regular_shift (sun_ev E key) evf 1 lo hi -> location E <> None ->
+    forall k st dt, cache_coherent E st -> lo <= utc_day dt -> utc_day dt + Z.of_nat k <= hi + 1 ->
+      gchain E W n key None st dt k = map (fun j => Ok (round_up_sec (evf (utc_day dt + Z.of_nat j)))) (seq 0 k).
+Proof. exact gen_sun_chain_regular_shifted. Qed.
+Print Assumptions C18_generated_chain_regular_shifted.
+
+Theorem C18_generated_shifted_skips_pending :
+  forall E W n key evf lo hi st dt, world_ok W -> (1 <= n)%nat ->
+    utc_regular_shift (sun_ev E key) evf 1 lo hi -> location E <> None -> cache_coherent E st ->
+    lo <= utc_day dt - 1 -> utc_day dt <= hi ->
+    dt < round_up_sec (evf (utc_day dt - 1)) ->
+    pm_value (gen_sun E W n key None st dt) = Some (PRet (round_up_sec (evf (utc_day dt)))) /\
+    dt < round_up_sec (evf (utc_day dt - 1)) < round_up_sec (evf (utc_day dt)).
+Proof. exact gen_sun_shifted_skips_pending. Qed.
+Print Assumptions C18_generated_shifted_skips_pending.
+
+(* KNOWN FINDING F11 on the generated code *)
+Theorem C18_generated_irregular_refuted :
+  exists (E : penv) (W : sunworld) (key : nat) (evf : Z -> Z) (dt v1 v2 : Z),
+    world_ok W /\ cache_coherent E pstate0 /\
+    utc_regular (sun_ev E key) evf 20344 20348 /\
+    gchain E W 1 key None pstate0 dt 2 = [Ok v1; Ok v2] /\
+    v2 - v1 > HOURS 47 /\
+    24 * 3600 * NS + 1800 * NS < v2 - v1.
+Proof. exact gen_sun_irregular_refuted. Qed.
+Print Assumptions C18_generated_irregular_refuted.
+
+Theorem C18_generated_irregular_repeat_refuted :
+  exists (E : penv) (W : sunworld) (key : nat) (dt v1 v2 : Z),
+    world_ok W /\ cache_coherent E pstate0 /\
+    gchain E W 1 key None pstate0 dt 2 = [Ok v1; Ok v2] /\
+    v2 - v1 = 30 * NS.
+Proof. exact gen_sun_irregular_repeat_refuted. Qed.
+Print Assumptions C18_generated_irregular_repeat_refuted.
+
+Theorem C18_generated_irregular_loop_refuted :
+  exists (E : penv) (W : sunworld) (key : nat) (dt : Z),
+    world_ok W /\ cache_coherent E pstate0 /\
+    (exists e, sun_ev E key (utc_day dt) = Some e /\ e < dt) /\
+    pm_value (gen_sun E W 1 key None pstate0 dt) = Some (PExc (XErr EInfiniteLoop)).
+Proof. exact gen_sun_irregular_loop_refuted. Qed.
+Print Assumptions C18_generated_irregular_loop_refuted.
+
+(* FINDING F15 / F16 on the generated code *)
+Theorem C18_generated_following_date_refuted :
+  exists (E : penv) (W : sunworld) (n : nat) (key : nat) (f : filt) (dt v d e : Z),
+    world_ok W /\ cache_coherent E pstate0 /\
+    utc_regular_shift (sun_ev E key) (table_fun chicago_elev_setting_2025) 1 20255 20264 /\
+    pm_value (gen_sun E W n key (Some f) pstate0 dt) = Some (PRet v) /\
+    sun_ev E key d = Some e /\
+    dt < round_up_sec e < v /\
+    allow_opt (pz E) (Some f) (round_up_sec e) = true /\
+    v - round_up_sec e > 6 * DAY.
+Proof. exact gen_sun_following_date_refuted. Qed.
+Print Assumptions C18_generated_following_date_refuted.
+
+(* set_location *)
+Theorem C18_generated_set_location :
+  forall W a b c g,
+    g_set_location W a b c g =
+      if set_location_args_ok a b c then
+        match w_mk_observer W a b c with
+        | PRet o => (Some o, PRet tt)
+        | PExc e => (g, PExc e)
+        end
+      else (g, PExc (XErr ETypeError)).
+Proof. exact gen_set_location_spec. Qed.
+Print Assumptions C18_generated_set_location.
